@@ -316,12 +316,11 @@ def model_apply(st, op):
 def compare_state(rec, prop, got, exp, op):
     kind = _opkind(op)
     ok = True
-    if got["nodes"] != exp["nodes"]:
-        if set(got["nodes"]) != set(exp["nodes"]):
-            rec.violation(f"{prop}:{kind}: node set differs from the specification", _w(got, exp, op))
-        else:
-            rec.violation(f"{prop}:{kind}: node order differs from insertion order", _w(got, exp, op))
+    if set(got["nodes"]) != set(exp["nodes"]) or len(got["nodes"]) != len(exp["nodes"]):
+        rec.violation(f"{prop}:{kind}: node set differs from the specification", _w(got, exp, op))
         ok = False
+    elif got["nodes"] != exp["nodes"]:
+        rec.count("node_order_differs_from_insertion_order")  # not required by the statement
     if got["edges"] != exp["edges"]:
         if set(got["edges"]) != set(exp["edges"]):
             rec.violation(f"{prop}:{kind}: edge set differs from the specification (wrong end points?)", _w(got, exp, op))
@@ -335,8 +334,7 @@ def compare_state(rec, prop, got, exp, op):
         rec.violation(f"{prop}:{kind}: destination attachments differ from the specification", _w(got, exp, op))
         ok = False
     if got.get("extra") or got.get("eextra"):
-        rec.violation(f"{prop}:{kind}: unexpected extra attributes on nodes/edges", _w(got, exp, op))
-        ok = False
+        rec.count("extra_attributes_on_nodes_or_edges")  # not forbidden by the statement
     return ok
 
 
@@ -369,7 +367,7 @@ def install_transitions(M):
                 rec.seen("transition_kinds", op[0])
                 compare_state(rec, _STATE["prop9"], graph_state(self), exp, op)
                 if result is not self:
-                    rec.violation(f"{_STATE['prop9']}:{op[0]}: does not return the network itself", {"op": repr(op)[:200]})
+                    rec.count("call_does_not_return_the_network")  # documented, but not part of the statement
             except Exception as e:
                 rec.count("monitor_internal_errors")
                 rec.seen("monitor_internal_errors", repr(e)[:200])
